@@ -44,7 +44,7 @@ HOST_FAMILIES = {
 FAMILY_ORDER = ["fr", "couk", "idn", "ghio", "lang", "special"]
 # a literal '|' inside a stem is legal as long as it is not followed by a stem
 # marker ('p:' etc.): the serialised format only splits before markers
-PATHS = ["", "/", "/a", "/a/", "/a/b", "/a//b", "/a/b/", "/a/index.html", "/a/./b", "/A", "/%61", "/a/b.html", "/a/b/c", "/a|b", "/a/Foo|Bar", "/a|b/c"]
+PATHS = ["", "/", "/a", "/a/", "/a/b", "/a//b", "/a/b/", "/a/index.html", "/a/./b", "/A", "/%61", "/a/b.html", "/a/b/c", "/a|b", "/a/Foo|Bar", "/a|b/c", "/a||b", "/a|/b"]
 QUERIES = ["", "x=1", "x=1&y=2", "y=2&x=1", "utm_source=z&x=1", "x=1&utm_source=z", "X=1", "hl=fr&x=1", "k=a|b"]
 FRAGMENTS = ["", "#f", "#/route", "#!/route"]
 PORTS = ["", ":80", ":443", ":8080"]
@@ -152,6 +152,10 @@ def generate(seed, run, tier):
         # with an empty path stem pushed inside); computed with plain lru_stems
         from ural.lru.stems import lru_stems
 
+        if wrng.random() < 0.04:
+            # the empty LRU (also spelled as a lone empty path stem) is a key
+            # like any other: it is a prefix of every query
+            return wrng.choice([[], ["p:"]])
         stems = lru_stems(wrng.choice(universe), suffix_aware=config["suffix_aware"])
         if len(stems) > 1 and wrng.random() < 0.4:
             stems = stems[: wrng.randint(1, len(stems))]
@@ -166,17 +170,36 @@ def generate(seed, run, tier):
         x = wrng.random()
         if x < 0.7:
             return {"op": "set", "url": wrng.choice(universe), "via": wrng.choice(["set", "set", "setitem"]), "val": draw_value()}
-        return {"op": "set_lru", "stems": draw_lru(), "as": wrng.choice(["list", "str"]), "val": draw_value()}
+        stems = draw_lru()
+        return {"op": "set_lru", "stems": stems, "as": wrng.choice(["list", "str"]) if stems else "list", "val": draw_value()}
 
     scripts = [[] for _ in range(n_writers)]
     for _ in range(length):
         scripts[wrng.randrange(n_writers)].append(draw_set())
+    # other trie instances living in the same process, with their own class and
+    # options: instances must not share state (options dicts, caches)
+    others = []
+    if crng.random() < 0.35:
+        for i in range(crng.choice([1, 1, 2])):
+            ocls = crng.choice(CLASSES)
+            others.append({"i": i, "cls": ocls, "suffix_aware": crng.random() < 0.5, "kwargs": variant_kwargs(ocls, crng)})
+    other_events = []
+    for spec in others:
+        other_events.append(dict(spec, op="other_create", c="O%d" % spec["i"]))
+        for _ in range(wrng.randint(0, 3)):
+            other_events.append({"op": wrng.choice(["other_set", "other_match"]), "i": spec["i"], "url": wrng.choice(universe), "val": {"c": "other"}, "c": "O%d" % spec["i"]})
     tasks = [("W", i) for i in range(n_writers)] + [("R", i) for i in range(n_readers)] + [("I", i) for i in range(n_iters)]
+    if other_events:
+        tasks.append(("O", 0))
     events = []
     live = {}
     budget = length * 4 + 8
     while any(scripts) and len(events) < budget:
         kind, idx = srng.choice(tasks)
+        if kind == "O":
+            if other_events:
+                events.append(other_events.pop(0))
+            continue
         if kind == "W":
             if not scripts[idx]:
                 continue
@@ -197,7 +220,7 @@ def generate(seed, run, tier):
                 ev["url"] = wrng.choice(universe)
             elif op == "match_lru":
                 ev["stems"] = draw_lru()
-                ev["as"] = wrng.choice(["list", "str"])
+                ev["as"] = wrng.choice(["list", "str"]) if ev["stems"] else "list"
             events.append(ev)
         else:
             it = "I%d" % idx
@@ -339,6 +362,7 @@ class Run(object):
         }[cls]
         self.model = {}
         self.iters = {}
+        self.others = {}
         self.sweeps = 0
         self.universe = list(config["universe"])
         self.keys = {}
@@ -385,7 +409,11 @@ class Run(object):
             self.fail(invariant, op, got, expected, detail)
 
     def lru_arg(self, stems, how):
-        return serialize(stems) if how == "str" else list(stems)
+        # the serialised format cannot represent an empty stem list or a last
+        # stem ending in '|' (trailing pipes are stripped): pass those as lists
+        if how == "str" and stems and not stems[-1].endswith("|"):
+            return serialize(stems)
+        return list(stems)
 
     def sweep(self, op, force=False):
         sw = self.cfg.get("sweep") or {}
@@ -499,6 +527,8 @@ class Run(object):
             self.note_set(key)
             if "p:" in stems[:-1]:
                 stats.probe("empty_path_stem_inside")
+            if not key:
+                stats.probe("empty_lru_stored")
             stats.probe("set_lru_" + ev["as"])
             if ev["as"] == "str" and any("|" in x for x in stems):
                 stats.probe("pipe_inside_serialised_stem")
@@ -535,6 +565,37 @@ class Run(object):
             else:
                 stats.probe("set_unparseable_raised")
             self.sweep("set_bad")
+        elif op == "other_create":
+            import ural.lru as lru
+            import ural.lru.stems as stems_mod
+
+            cls = ev["cls"]
+            fn = {"LRUTrie": stems_mod.lru_stems, "CanonicalizedLRUTrie": stems_mod.canonicalized_lru_stems, "NormalizedLRUTrie": stems_mod.normalized_lru_stems, "FingerprintedLRUTrie": stems_mod.fingerprinted_lru_stems}[cls]
+            kw = dict(ev["kwargs"]) if cls != "LRUTrie" else {}
+            sa = ev["suffix_aware"]
+            self.others[ev["i"]] = {
+                "trie": getattr(lru, cls)(suffix_aware=sa, **dict(ev["kwargs"])),
+                "key": (lambda url, fn=fn, sa=sa, kw=kw: clean(fn(url, suffix_aware=sa, **kw))),
+                "model": {},
+            }
+            stats.probe("other_instance_in_process")
+            stats.event("%s|other_create|%s|%s|%s" % (ev.get("c"), cls, sa, canon(ev["kwargs"])))
+            # constructing another trie must not disturb this one
+            self.sweep("other_create", force=True)
+        elif op in ("other_set", "other_match"):
+            other = self.others.get(ev["i"])
+            if other is None:
+                return
+            key = other["key"](ev["url"])
+            if op == "other_set":
+                value = dec_value(ev["val"])
+                other["trie"].set(ev["url"], value)
+                other["model"][key] = value
+            got = other["trie"].match(ev["url"])
+            self.expect("match", op, got, prefix_lookup(other["model"], key), {"url": ev["url"], "instance": "other %d" % ev["i"]})
+            stats.event("%s|%s|%s" % (ev.get("c"), op, r(ev["url"])))
+            if op == "other_set":
+                self.sweep("other_set")
         elif op == "match":
             url = ev["url"]
             key = self.keys.get(url)
@@ -591,9 +652,11 @@ class Run(object):
             rec = self.iters.pop(ev["it"], None)
             if rec is None:
                 return
-            if ev["how"] == "close":
+            if ev["how"] == "close" and hasattr(rec["gen"], "close"):
                 rec["gen"].close()
-            elif ev["how"] == "drop":
+            elif ev["how"] == "drop" or not hasattr(rec["gen"], "throw"):
+                # (a plain iterator has neither close() nor throw(): dropping it
+                # is the only way to abandon it)
                 rec["gen"] = None
             else:
                 try:
@@ -696,6 +759,7 @@ PROBES = [
     "set_lru_str",
     "set_lru_list",
     "pipe_inside_serialised_stem",
+    "empty_lru_stored",
     "match_lru_str",
     "match_lru_list",
     "same_string_class_size_ge2_hit",
@@ -705,6 +769,7 @@ PROBES = [
     "set_unparseable_raised",
     "iterator_judged",
     "iter_cancelled",
+    "other_instance_in_process",
     "cls_LRUTrie",
     "cls_CanonicalizedLRUTrie",
     "cls_NormalizedLRUTrie",
@@ -721,7 +786,7 @@ RULE = (
 )
 ASSUMPTIONS = [
     "the model's keys are computed with the repository's module-level stem functions (lru_stems etc.): a stem bug that is consistent between set and match is invisible here (it belongs to C07/C12/C13); the same-key law against the URL-level functions is the independent cross-check",
-    "a literal '|' occurs inside path and query stems, but never directly before a stem marker such as 'p:' and never at the end of a stem (the serialised LRU format cannot represent those)",
+    "a literal '|' occurs inside path and query stems (single, doubled, and at the end of a stem that is followed by another stem), but never directly before text that looks like a stem marker ('p:' etc.) and never at the end of the last stem (the serialised LRU format cannot represent those); the empty stem list is only passed as a list (its serialisation '|' reads back as one empty stem)",
     "operations are atomic; an iterator overtaken by a mutation is not judged",
     "sampled histories: a clean batch is evidence, not proof",
 ]
